@@ -88,6 +88,15 @@ def build_traces(path, tier, seed):
         n = gen.length(rng, 2, nmax)
         x = rand_series(rng, n)
         arg = x if tid % 4 else x.tolist()
+        if tid % 5 == 2:
+            # narrow containers: 24-bit digitiser counts as int32 (products of differences exceed 2^31), int16, float32
+            dt_ = [np.int32, np.int16, np.float32, np.int32][(tid // 5) % 4]
+            big = 2.0e5 if dt_ is np.int32 else (120.0 if dt_ is np.int16 else 1.0)
+            xi = np.round(x / (np.max(np.abs(x)) + 1e-300) * big) if dt_ is not np.float32 else x
+            arg = np.asarray(xi, dtype=dt_)
+            if np.all(arg == arg[0]):
+                arg[-1] = arg[0] + 1
+            x = np.asarray(arg, dtype=float)
         allp, mx, mn, co, cp = impl(arg)
         recs.append({"tid": tid, "x": enc_seq(x), "all": [int(i) for i in allp], "mx": [int(i) for i in mx],
                      "mn": [int(i) for i in mn], "cyco": enc_seq(co), "cycp": enc_seq(cp)})
